@@ -78,7 +78,7 @@ def state_view(name, d):
   return {}
 
 
-def run_sequence(name, mk, mode, prob, seed, batches, restarts, order='in'):
+def run_sequence(name, mk, mode, prob, seed, batches, restarts, order='in', ctor_seed=None):
   """Returns (suggestions per step, final state view) with restarts before the steps in `restarts`."""
   from vizier import algorithms as vza
   from vizier import pyvizier as vz
@@ -92,7 +92,7 @@ def run_sequence(name, mk, mode, prob, seed, batches, restarts, order='in'):
   for step, b in enumerate(batches):
     if step in restarts and md is not None:
       before = state_view(name, d)
-      d = mk(prob, seed)
+      d = mk(prob, seed if ctor_seed is None else ctor_seed)   # the new instance; what it was constructed with must not matter after load()
       d.load(through_wire(md))
       after = state_view(name, d)
       if before != after:
@@ -140,27 +140,35 @@ def shard(task):
           except Exception as e:  # pylint: disable=broad-except
             refused += 1
             continue
-          for restarts in restart_sets:
+          # every restart set with a new instance constructed like the first one; single restarts also with a new instance
+          # constructed with another seed (the dumped state alone must determine the continuation)
+          variants = [(r, None) for r in restart_sets] + [(r, seed + 7919) for r in restart_sets if len(r) == 1]
+          failed_plain = set()     # restart sets that already fail with an identically constructed new instance
+          for restarts, ctor_seed in variants:
+            if ctor_seed is not None and restarts in failed_plain:
+              continue             # reported under its plain signature; the other-seed variant adds nothing
             if True:
               n += 1
               nontriv += 1
               try:
-                got, got_state, _ = run_sequence(name, mk, mode, prob, seed, batches, set(restarts), order)
+                got, got_state, _ = run_sequence(name, mk, mode, prob, seed, batches, set(restarts), order, ctor_seed)
               except Exception as e:  # pylint: disable=broad-except
                 sig = 'C13|restart-raises|%s|%s' % (name, type(e).__name__)
                 vios.setdefault(sig, {'sig': sig, 'desc': '%s on %s seed %d batches %s restarts %s: %r' % (name, keys, seed, batches, restarts, e),
                                       'case': {'designer': name, 'space': list(keys), 'seed': seed, 'batches': list(batches), 'restarts': list(restarts)}})
                 continue
+              if ctor_seed is None and ((mode == 'identical' and got != base) or (mode == 'state' and got_state)):
+                failed_plain.add(restarts)
               if mode == 'identical' and got != base:
                 step = [i for i, (a, b) in enumerate(zip(base, got)) if a != b][0]
-                sig = 'C13|suggestions-differ|%s' % name
-                vios.setdefault(sig, {'sig': sig, 'desc': '%s on %s seed %d batches %s (completions fed %s order) restarts before steps %s: step %d suggests %s, the live instance suggested %s'
-                                      % (name, keys, seed, batches, order, restarts, step, got[step], base[step]),
+                sig = 'C13|suggestions-differ%s|%s' % ('' if ctor_seed is None else ':new-instance-built-with-another-seed', name)
+                vios.setdefault(sig, {'sig': sig, 'desc': '%s on %s seed %d batches %s (completions fed %s order) restarts before steps %s%s: step %d suggests %s, the live instance suggested %s'
+                                      % (name, keys, seed, batches, order, restarts, '' if ctor_seed is None else ' (new instance constructed with seed %d)' % ctor_seed, step, got[step], base[step]),
                                       'case': {'designer': name, 'space': list(keys), 'seed': seed, 'batches': list(batches), 'restarts': list(restarts)}})
               if mode == 'state' and got_state:
                 step, diff = got_state[0]
                 fields = sorted(diff)
-                sig = 'C13|state-differs-after-load|%s|%s' % (name, '+'.join(fields))
+                sig = 'C13|state-differs-after-load%s|%s|%s' % ('' if ctor_seed is None else ':new-instance-built-with-another-seed', name, '+'.join(fields))
                 vios.setdefault(sig, {'sig': sig, 'desc': '%s on %s seed %d batches %s: instance restored before step %d differs from the dumped one: %s' % (
                     name, keys, seed, batches, step, {k: v for k, v in diff.items() if k != 'dump'}),
                     'case': {'designer': name, 'space': list(keys), 'seed': seed, 'batches': list(batches), 'restarts': list(restarts)}})
@@ -231,6 +239,9 @@ def run(ctx):
     for sp in spaces[: (2 if q else len(spaces))]:
       tasks.append(('shard', {'designer': name, 'spaces': [sp], 'seeds': [ctx.seed + 1] if q else [ctx.seed + 1, ctx.seed + 2],
                               'maxlen': (3 if heavy else 4) if q else (4 if heavy else 5)}))
+    if not heavy:
+      # "all seeds": zero, negative and beyond 32 bits (a designer may refuse one at construction, which is tallied, not a violation)
+      tasks.append(('shard', {'designer': name, 'spaces': [spaces[0]], 'seeds': [0, -5, 2 ** 40 + 1], 'maxlen': 2 if q else 3}))
   # long runs: past the point where the eagle pool is full / the evolutionary designers have left their first phase
   for name, sp in (('eagle', ('d01', 'd-55', 'c5')), ('eagle', ('d01', 'd-55')), ('nsga2', ('d01', 'd-55')), ('quasi_random', ('d01', 'c5')), ('shuffled_grid', ('i-22', 'c2'))):
     for seed in ([ctx.seed + 1, ctx.seed + 2] if q else [ctx.seed + 1, ctx.seed + 2, ctx.seed + 3]):
